@@ -190,7 +190,10 @@ Definition bval (s : st) (b : bound) : option (option nat) :=      (* None = Nam
 Definition rep_fin (mnv : option nat) (s : st) (acc : list value) : st :=
   match mnv with
   | None | Some 0 => upd s true (VList (rev acc)) (pos s)
-  | Some m => if Nat.leb m (length acc) then upd s true (VList (rev acc)) (pos s) else s
+  | Some m => if Nat.leb m (length acc) then upd s true (VList (rev acc)) (pos s)
+              (* too few elements.  After a failed element the registers already say so; the loop can also have
+                 stopped at a run-time upper bound that is smaller than the lower bound: then the list fails *)
+              else if status s then upd s false (VErr 10) (pos s) else s
   end.
 Definition at_max (mx : option nat) (k : nat) := match mx with Some m => Nat.eqb k m | None => false end.
 
